@@ -582,5 +582,42 @@ pub fn agreement<K: BufKind>(stream: &[u8], extra: usize, with_default: bool) ->
             }
         }
     }
+    // the same bytes from a source that says "would block" now and then (inside the first start sequence,
+    // somewhere in the middle, and right at the end): through the non-blocking API over io::Read and over the
+    // embedded-hal source the decoded results must be the same once the would-block results are dropped
+    if stream.len() <= 20_000 {
+        let h = crate::util::fnv64(stream) as usize;
+        let nlen = stream.len();
+        let mut at = vec![if nlen >= 2 { 1 + h % nlen.min(7) } else { 0 }, (h >> 16) % (nlen + 1), nlen];
+        at.sort();
+        at.dedup();
+        let mut script: Vec<Step> = Vec::with_capacity(nlen + 3);
+        for (k, b) in stream.iter().enumerate() {
+            if at.contains(&k) {
+                script.push(Step::WouldBlock);
+            }
+            script.push(Step::Byte(*b));
+        }
+        if at.contains(&nlen) {
+            script.push(Step::WouldBlock);
+        }
+        for (api, poll) in [(1u8, Poll::Next), (1, Poll::Read), (2, Poll::Next), (4, Poll::Read)] {
+            let fe = crate::props::c11::Fe { api, poll_next: poll == Poll::Next, cap: if K::CAP == usize::MAX { None } else { Some(K::CAP) } };
+            let name = format!("{} over a source with would-blocks", crate::props::c11::fe_name(fe));
+            let r = crate::props::c11::run_cfg(fe, &script).map_err(|m| (name.clone(), m))?;
+            let kept: Vec<Ev> = r.into_iter().map(|x| x.1).filter(|e| !matches!(e, Ev::IoWouldBlock(0))).collect();
+            n += 1;
+            let shown = show(&kept);
+            if api == 1 {
+                let (body, left) = normalise_reader_end(kept, poll).map_err(|m| (name.clone(), m))?;
+                if body != plain || left != leftover {
+                    return Err(mism(&name, format!("{} (leftover {})", shown, left)));
+                }
+            } else if kept != plain {
+                // a serial source has no end of input: only the decoded results are compared
+                return Err(mism(&name, shown));
+            }
+        }
+    }
     Ok(Agreed { events, leftover, frontends: n })
 }
